@@ -76,7 +76,8 @@ def tag_docs(rng, tag, n):
     out = []
     for k in range(n):
         variant = ['empty', 'minimal', 'rich', 'nested-message-names', 'body-first', 'extra-envelope', 'attrs',
-                   'foreign-ns-message-name', 'root-default-ns', 'doctype', 'noise', 'duplicate-story-ids'][k % 12]
+                   'foreign-ns-message-name', 'root-default-ns', 'doctype', 'noise', 'duplicate-story-ids',
+                   'root-named-like-a-message', 'bare-message-root'][k % 14]
         m = E(tag)
         if tag == 'roElementAction':
             m.set('operation', 'DELETE')
@@ -112,6 +113,14 @@ def tag_docs(rng, tag, n):
                               '<!DOCTYPE mos [<!ENTITY e "x">]>\n']) + doc
         if variant == 'noise':
             doc = gen.xml_noise(rng, doc, p=1.0)
+        if variant == 'root-named-like-a-message':
+            # the envelope element has another message's name: what decides is the message element INSIDE it
+            other = rng.choice([t for t in MESSAGE_TAGS if t != tag])
+            doc = B.to_text(B.envelope(7, m, **env), pretty=False)
+            doc = '<%s>' % other + doc[len('<mos>'):-len('</mos>')] + '</%s>' % other
+        if variant == 'bare-message-root':
+            # the message element without any envelope: a document whose root has no message element in it
+            doc = B.to_text(m, pretty=rng.random() < 0.5)
         out.append((variant, doc))
     return out
 
@@ -283,7 +292,7 @@ def run(s):
     tmpdir = tempfile.mkdtemp(prefix='verif-c08-')
     try:
         idx = 0
-        per_tag = 12 if q else 480
+        per_tag = 14 if q else 476
         for tag in MESSAGE_TAGS:
             rng = s.rng('tag', tag)
             for variant, doc in tag_docs(rng, tag, per_tag):
